@@ -30,6 +30,8 @@ def rand_row(rng, N, self_ok=True, zero_bias=0.4):
 
 def samples(rng, lo=0, hi=3, k=2):
     vals = sorted(set(rng.randint(lo, hi) for _ in range(k)))
+    if vals == [0] and hi > 0:
+        vals = [0, rng.randint(1, hi)]   # never only zero: a zero-time cycle would be a livelock of the model itself
     return vals
 
 
@@ -314,6 +316,28 @@ def gen_trk(rng):
     return sc
 
 
+def gen_dead(rng):
+    """restricted networks run until deadlock (finite integer servers, capacities, any topology)"""
+    N = rng.choice([1, 2, 2, 3])
+    K = rng.choice([1, 1, 2])
+    nodes = [{"c": rng.choice([1, 1, 2]), "qcap": rng.choice([0, 0, 1, 2])} for _ in range(N)]
+    arr = [[(samples(rng, 1, 3, 2) if (n == 0 or rng.random() < 0.6) else []) for _ in range(K)] for n in range(N)]
+    route = []
+    for _ in range(K):
+        P = []
+        for n in range(N):
+            row = rand_row(rng, N, zero_bias=0.3)
+            P.append(row)
+        route.append(tm(P))
+    sc = {"N": N, "K": K, "nodes": nodes, "arrS": arr,
+          "svcS": [[samples(rng, 0, 3, 2) for _ in range(K)] for n in range(N)],
+          "route": route, "stop": "deadlock", "detector": "digraph", "T": INF,
+          "tracker": rng.choice(["naive", "naive", "matrix", "node", "system"])}
+    if K == 2 and rng.random() < 0.5:
+        sc["prio"] = [0, 1]
+    return sc
+
+
 def gen_stopcount(rng):
     base = rng.choice([gen_core1, gen_tandem, gen_prio, gen_renege, gen_cls])
     sc = base(rng)
@@ -348,6 +372,7 @@ def gen_stopcount(rng):
 FAMILIES = {
     "stopcount": gen_stopcount,
     "trk": gen_trk,
+    "dead": gen_dead,
     "clsren": gen_clsren,
     "sched": gen_sched,
     "schedpre": lambda rng: gen_sched(rng, pre_choices=(1, 2, 3)),
@@ -473,6 +498,24 @@ def mc_instances(name, tier):
                         "arrS": [[[1, 2], [2]]], "svcS": [[[2, 3], [1]]], "cct": [[[], [1, 2]], [[], []]],
                         "route": [tm([[0]]), tm([[0]])], "T": 7 if not big else 9})
         return [(fam, 4 if not big else 5)]
+    if name == "dead":
+        fams = []
+        fam = []
+        for c, q in [(1, 0), (2, 0), (1, 1)]:
+            fam.append({"N": 1, "K": 1, "nodes": [{"c": c, "qcap": q}], "arrS": [[[1, 2]]], "svcS": [[[1, 2]]],
+                        "route": [tm([[2]])], "stop": "deadlock", "detector": "digraph", "tracker": "naive",
+                        "T": 7 if not big else 9})
+        for P in ([[0, 4], [2, 0]], [[2, 2], [4, 0]]):
+            for c1, c2 in [(1, 1), (2, 1)]:
+                fam.append({"N": 2, "K": 1, "nodes": [{"c": c1, "qcap": 0}, {"c": c2, "qcap": 0}],
+                            "arrS": [[[1, 2]], [[2]]], "svcS": [[[1, 2]], [[1]]],
+                            "route": [tm(P)], "stop": "deadlock", "detector": "digraph", "tracker": "matrix",
+                            "T": 6 if not big else 8})
+        fam.append({"N": 3, "K": 1, "nodes": [{"c": 1, "qcap": 0}, {"c": 1, "qcap": 0}, {"c": 1, "qcap": 0}],
+                    "arrS": [[[1]], [[1, 2]], [[2]]], "svcS": [[[1, 2]], [[1]], [[1]]],
+                    "route": [tm([[0, 4, 0], [0, 0, 4], [4, 0, 0]])], "stop": "deadlock", "detector": "digraph",
+                    "tracker": "node", "T": 5 if not big else 7})
+        return [(fam, 5 if not big else 6)]
     if name == "trk":
         fam = []
         for t in ["system", "node", "subset", "grouped", "nodeclass", "naive", "matrix"]:
